@@ -18,7 +18,7 @@ use biometrics::{Collector, Counter};
 use mani::{Edit, Manifest, ManifestIterator};
 use setsum::Setsum;
 use sst::merging_cursor::MergingCursor;
-use sst::{Cursor, Sst, SstCursor};
+use sst::{Cursor, KeyRef, Sst, SstCursor};
 
 use super::{
     LsmtkOptions, MANI_ROOT, ResultSErrorExt, SError, SST_FILE, TRASH_LOG, TRASH_ROOT, TRASH_SST,
@@ -307,6 +307,13 @@ impl LsmVerifier {
             return Err(corruption("data construction").with_debug_field("output", o));
         }
         while let Some(i) = input.key_value() {
+            // The output is exhausted, so everything left in the input was dropped.  None of it may
+            // be something the policy says to keep.
+            if let Some(gc_next) = gc_next {
+                if gc_next.cmp(&KeyRef::from(&i)) != Ordering::Greater {
+                    return Err(corruption("data loss").with_debug_field("input", KeyRef::from(&i)));
+                }
+            }
             let mut setsum = sst::Setsum::default();
             setsum.insert(i);
             computed_discard += setsum.into_inner();
